@@ -132,7 +132,7 @@ ANSI = re.compile(r"\x1b\[[0-9;]*[A-Za-z]")
 def judge(c, cli=False):
     f = mutate.BY_KIND[c["fault"]]
     tree, mains, culprit, off = build(c)
-    with driver.Scratch(tree) as sc:
+    with driver.Scratch(tree, fixed="c17") as sc:       # the same paths for every case of this process
         root = sc.path
         files = [(os.path.join(root, m), tree[m]) for m in mains]
         out = driver.assemble(files, charset=c["charset"])
